@@ -147,6 +147,30 @@ def real_binary_paths(ck):
         if outname and (not os.path.isfile(os.path.join(d, outname)) or open(os.path.join(d, outname), "rb").read() != plain):
             ck.violation("decryption through the real program reported success but %s does not hold the plaintext (%s)" % (outname, name), rep)
             return
+    # explicit --cmode / --hmode on -v and -d of the same authentic file (values equal to and different from the header's): the two
+    # verdicts must agree, whatever they are
+    for extra in (["--cmode", "2"], ["--hmode", "1"], ["--cmode", "1", "--hmode", "0"], ["--cmode", "0", "--hmode", "2"]):
+        stv, outv = run(["-v", "-i", "backup.enc", "-k", K] + extra)
+        std, outd = run(["-d", "-i", "backup.enc", "-k", K, "-o", "o3.bin"] + extra)
+        ck.cov["evaluations"] += 1
+        if (stv == "EXIT 0") != (std == "EXIT 0") or stv.startswith(("CRASH", "HANG")) or std.startswith(("CRASH", "HANG")):
+            ck.violation("verify %s but decrypt %s on the same authentic file and key with explicit %s" % (stv, std, " ".join(extra)),
+                         {"class": None, "argv_verify": ["-v", "-i", "backup.enc", "-k", K] + extra, "argv_decrypt": ["-d", "-i", "backup.enc", "-k", K, "-o", "o3.bin"] + extra, "verify_output": outv, "decrypt_output": outd})
+            return
+    # a REFUSED decryption (wrong key) whose -o name is longer than any fixed name buffer and starts with the input's own name:
+    # neither the input nor anything else but the named output may be touched
+    longname = "q" * 127
+    shutil.copy(os.path.join(d, "backup.enc"), os.path.join(d, longname))
+    wrongK = base64.b64encode(bytes([key[0] ^ 1]) + key[1:]).decode()
+    before2 = digest(inputs + [longname])
+    for oname in (longname + ".dec", longname + "x" * 10, "short.out"):
+        st, out = run(["-d", "-i", longname, "-k", wrongK, "-o", oname])
+        ck.cov["evaluations"] += 1
+        after2 = digest(inputs + [longname])
+        if after2 != before2 or st == "EXIT 0":
+            ck.violation("a refused decryption (wrong key, -o %s...) %s" % (oname[:12], "reported success" if st == "EXIT 0" else "changed or removed one of its input files: " + ", ".join(n[:20] for n in after2 if after2[n] != before2[n])),
+                         {"class": None, "argv": ["-d", "-i", longname, "-k", wrongK, "-o", oname], "status": st, "output_tail": out, "files_before": before2, "files_after": after2})
+            return
     # input and output on different file systems with EQUAL inode numbers
     dirs = []
     for cand in ("/dev/shm", "/dev", "/run", "/tmp", "/var/tmp", d):
